@@ -231,7 +231,9 @@ def range_bounds(ctx, r, n):
         s, e = Int(0, 'usize'), Int(n, 'usize')
     elif ty == 'RangeInclusive':
         s = r.fields[0]
-        e = checked_arith(ctx, 'Add', r.fields[1], Int(1, 'usize'))
+        if ctx.branch(ctx.m.int_binop('Eq', r.fields[1], Int((1 << 64) - 1, 'usize'))):
+            raise RustPanic('attempted to index slice up to maximum usize', 'index')
+        e = ctx.m.int_binop('Add', r.fields[1], Int(1, 'usize'))
     elif ty == 'RangeToInclusive':
         s = Int(0, 'usize')
         e = checked_arith(ctx, 'Add', r.fields[0], Int(1, 'usize'))
